@@ -726,6 +726,27 @@ fn c15_ports_run(case: &mut Case, rng: &mut Rng) {
         }
         case.ctl("step");
     }
+    if rng.chance(1, 3) {
+        // the range exactly full, then one port given back — the one just behind the cursor (the socket bound last),
+        // or any other — and asked for again: the allocator must find it whichever it is
+        let h = rng.below(hosts as u64) as usize;
+        case.ctl(&format!("crash h{h}"));
+        case.ctl(&format!("bounce h{h}"));
+        case.ctl("step");
+        for k in 0..n {
+            let kind = if rng.chance(1, 2) { "udp_bind" } else { "tcp_bind" };
+            case.ctl(&format!("q h{h} {kind} s{} any:0", k + 1));
+        }
+        case.ctl("step");
+        let back = if rng.chance(1, 2) { n } else { 1 + rng.below(n) };
+        case.ctl(&format!("q h{h} drop s{back}"));
+        case.ctl("step");
+        let kind = if rng.chance(1, 2) { "udp_bind" } else { "tcp_bind" };
+        case.ctl(&format!("q h{h} {kind} s{} any:0", n + 1));
+        case.ctl("step");
+        case.ctl(&format!("q h{h} count"));
+        case.ctl("step");
+    }
 }
 
 fn c15_dns_cfg(rng: &mut Rng) -> CaseCfg {
